@@ -1661,41 +1661,71 @@ def r5_result_fields(corpus: Corpus, rep: Report, tier: str):
     if len(_local_defs(run, var)) != 1:
         raise Unsupported(f"run_directive: `{var}` is rebound")
 
+    # the construction sites may have been moved into helpers that receive the parsing result:
+    # (function, name of the result there, name of the position there)
+    contexts: list[tuple[FunctionInfo, str, str | None]] = [(run, var, P_POS)]
+    work = [(run, var, P_POS, 0)]
+    while work:
+        f_, v_, p_, d_ = work.pop()
+        if d_ >= 2:
+            continue
+        for c in _fn_calls(f_):
+            h = _package_callee(c, f_)
+            if h is None or h.is_lambda or h.fq == f_.fq or h.fq == pdt.fq:
+                continue
+            try:
+                m_ = _callee_param_index(h, c)
+            except Unsupported:
+                continue
+            hn = _pos_params(h)
+            pname = lambda k_: hn[k_] if isinstance(k_, int) and k_ < len(hn) else (k_ if isinstance(k_, str) else None)
+            is_name = lambda a, nm: (isinstance(a, ast.Name) and a.id == nm) or (isinstance(_deref(a, f_), ast.Name) and _deref(a, f_).id == nm)
+            v_h = next((pname(k_) for k_, a in m_.items() if is_name(a, v_)), None)
+            if v_h is None:
+                continue
+            p_h = next((pname(k_) for k_, a in m_.items() if p_ is not None and is_name(a, p_)), None)
+            if all(x[0].fq != h.fq for x in contexts):
+                contexts.append((h, v_h, p_h))
+                work.append((h, v_h, p_h, d_ + 1))
+
     # (b) the docutils directive constructor (keywords fixed by docutils' Directive.__init__)
     DOCUTILS_KW = ("name", "arguments", "options", "content", "lineno", "content_offset", "block_text", "state", "state_machine")
     ctor = None
-    for c in _fn_calls(run):
-        kws = {k.arg for k in c.keywords}
-        if {"arguments", "options", "content", "content_offset"} <= kws:
-            ctor = c
-        elif len(c.args) >= 6 and isinstance(c.func, ast.Name) and _derives(c.func, run, lambda n: isinstance(n, ast.Attribute) and n.attr == "directive"):
-            ctor = c
+    ctx = None
+    for f_, v_, p_ in contexts:
+        for c in _fn_calls(f_):
+            kws = {k.arg for k in c.keywords}
+            if {"arguments", "options", "content", "content_offset"} <= kws:
+                ctor, ctx = c, (f_, v_, p_)
+            elif len(c.args) >= 6 and isinstance(c.func, ast.Name) and _derives(c.func, f_, lambda n: isinstance(n, ast.Attribute) and n.attr == "directive"):
+                ctor, ctx = c, (f_, v_, p_)
     if ctor is None:
-        raise Unsupported("run_directive: the docutils directive constructor call was not found")
+        raise Unsupported("run_directive: the docutils directive constructor call was not found (also not in helpers that receive the parsing result)")
+    run_, var_, pos_ = ctx  # the function holding the constructor call and the names of result / position there
     cm: dict[str, ast.expr] = {DOCUTILS_KW[i]: a for i, a in enumerate(ctor.args) if i < len(DOCUTILS_KW)}
     cm.update({k.arg: k.value for k in ctor.keywords if k.arg})
-    cm = {kk: (_deref(vv, run) if kk not in ("state", "state_machine") else vv) for kk, vv in cm.items()}
-    site = run.module.site(ctor)
+    cm = {kk: (_deref(vv, run_) if kk not in ("state", "state_machine") else vv) for kk, vv in cm.items()}
+    site = run_.module.site(ctor)
     kpre = f"{run.fq}|directive constructor"
-    judge(f"{kpre} arguments <- .{F_ARGS}", site, _is_field(cm.get("arguments"), var, F_ARGS), f"arguments={unparse(cm['arguments']) if 'arguments' in cm else None}: the directive does not get the parsed argument list")
-    judge(f"{kpre} options <- .{F_OPTS}", site, _is_field(cm.get("options"), var, F_OPTS), f"options={unparse(cm['options']) if 'options' in cm else None}: the directive does not get the validated options")
+    judge(f"{kpre} arguments <- .{F_ARGS}", site, _is_field(cm.get("arguments"), var_, F_ARGS), f"arguments={unparse(cm['arguments']) if 'arguments' in cm else None}: the directive does not get the parsed argument list")
+    judge(f"{kpre} options <- .{F_OPTS}", site, _is_field(cm.get("options"), var_, F_OPTS), f"options={unparse(cm['options']) if 'options' in cm else None}: the directive does not get the validated options")
     ce = cm.get("content")
     content_ok = (
         isinstance(ce, ast.Call)
-        and run.module.resolve(dotted(ce.func) or "").endswith("StringList")
+        and run_.module.resolve(dotted(ce.func) or "").endswith("StringList")
         and ce.args
-        and _is_field(_deref(ce.args[0], run), var, F_BODY)
-        and _fields_used(ce, var) | _fields_used(_deref(ce.args[0], run), var) == {F_BODY}
+        and _is_field(_deref(ce.args[0], run_), var_, F_BODY)
+        and _fields_used(ce, var_) | _fields_used(_deref(ce.args[0], run_), var_) == {F_BODY}
     )
     judge(f"{kpre} content <- StringList(.{F_BODY})", site, bool(content_ok), f"content={unparse(ce) if ce is not None else None}: the directive body is not exactly the parsed body lines (options/first line stripped)")
     judge(
         f"{kpre} content_offset <- .{F_OFF}",
         site,
-        _is_field(cm.get("content_offset"), var, F_OFF),
+        _is_field(cm.get("content_offset"), var_, F_OFF),
         f"content_offset={unparse(cm['content_offset']) if 'content_offset' in cm else None}: nested_parse(self.content, self.content_offset, node) places the body on the wrong lines (option block / blank line not counted)",
     )
     le = cm.get("lineno")
-    judge(f"{kpre} lineno <- position", site, isinstance(le, ast.Name) and le.id == P_POS, f"lineno={unparse(le) if le is not None else None}: not the line of the directive's first line")
+    judge(f"{kpre} lineno <- position", site, isinstance(le, ast.Name) and pos_ is not None and le.id == pos_, f"lineno={unparse(le) if le is not None else None}: not the line of the directive's first line")
     if "block_text" in cm:
         rep.listed("C06.R5", f"{kpre} block_text", site, f"block_text={short(cm['block_text'], 50)} (docutils: the whole directive text; not judged)")
     # state / state_machine are the mocks built for this position
@@ -1703,29 +1733,32 @@ def r5_result_fields(corpus: Corpus, rep: Report, tier: str):
         e = cm.get(kwn)
         okm = False
         if isinstance(e, ast.Name):
-            defs = _local_defs(run, e.id)
+            defs = _local_defs(run_, e.id)
             if len(defs) == 1 and isinstance(defs[0][1], ast.Call):
-                t = g.expr_type(defs[0][1], run)
+                t = g.expr_type(defs[0][1], run_)
                 cargs = defs[0][1].args
-                okm = t is not None and t[1].name == clsname and bool(cargs) and unparse(cargs[0]) == "self" and unparse(cargs[-1]) == P_POS
+                okm = t is not None and t[1].name == clsname and bool(cargs) and unparse(cargs[0]) == "self" and pos_ is not None and unparse(cargs[-1]) == pos_
         judge(f"{kpre} {kwn} <- {clsname}(self, ..., position)", site, okm, f"{kwn}={unparse(e) if e is not None else None}: the directive's nested parses would not re-enter this renderer at this line")
 
     # (c) the include mock
     inc_cls = corpus.cls("mocking:MockIncludeDirective")
     inc_init = corpus.lookup_method(inc_cls, "__init__")
-    ics = [c for c in _fn_calls(run) if inc_init is not None and any(t.fq == inc_init.fq for t in g.flat_targets(g.resolve_call(c, run)))]
+    ics = []
+    for f_, v_, p_ in contexts:
+        ics += [(c, f_, v_, p_) for c in _fn_calls(f_) if inc_init is not None and any(t.fq == inc_init.fq for t in g.flat_targets(g.resolve_call(c, f_)))]
     if len(ics) != 1 or inc_init is None:
         raise Unsupported(f"run_directive: expected one MockIncludeDirective(...) call, found {len(ics)}")
-    im = {kk: _deref(vv, run) for kk, vv in _callee_param_index(inc_init, ics[0]).items()}
+    ic_call, irun, ivar, ipos = ics[0]
+    im = {kk: _deref(vv, irun) for kk, vv in _callee_param_index(inc_init, ic_call).items()}
     ip = _pos_params(inc_init)  # renderer, name, klass, arguments, options, body, lineno
     if len(ip) < 7:
         raise Unsupported("MockIncludeDirective.__init__ signature changed")
-    site = run.module.site(ics[0])
+    site = irun.module.site(ic_call)
     kpre = f"{run.fq}|include mock"
     judge(f"{kpre} parameter 0 (renderer) <- self", site, unparse(im.get(0)) == "self" if im.get(0) is not None else False, "the include mock is not given this renderer")
     for idx, fld in ((3, F_ARGS), (4, F_OPTS), (5, F_BODY)):
-        judge(f"{kpre} parameter {idx} ({ip[idx]}) <- .{fld}", site, _is_field(im.get(idx), var, fld), f"{ip[idx]}={unparse(im[idx]) if im.get(idx) is not None else None}: the include mock does not get the parsed {fld}")
-    judge(f"{kpre} parameter 6 ({ip[6]}) <- position", site, isinstance(im.get(6), ast.Name) and im[6].id == P_POS, f"{ip[6]}={unparse(im[6]) if im.get(6) is not None else None}")
+        judge(f"{kpre} parameter {idx} ({ip[idx]}) <- .{fld}", site, _is_field(im.get(idx), ivar, fld), f"{ip[idx]}={unparse(im[idx]) if im.get(idx) is not None else None}: the include mock does not get the parsed {fld}")
+    judge(f"{kpre} parameter 6 ({ip[6]}) <- position", site, isinstance(im.get(6), ast.Name) and ipos is not None and im[6].id == ipos, f"{ip[6]}={unparse(im[6]) if im.get(6) is not None else None}")
     # the mock stores each parameter under the attribute run() reads
     stored = {}
     for n in inc_init.local_nodes():
@@ -1906,8 +1939,64 @@ def _destination(call: ast.Call, sinks: list[ast.AST]) -> tuple[str, set[str]]:
     return "dropped", set()
 
 
-def _text_conserved(rep: Report, fi: FunctionInfo, seeds: set[str], sinks: list[ast.AST], label: str, sink_label: str, source_pred=None) -> None:
-    """No character-changing operation lies on a data-flow path from the inserted text to the nested parse."""
+def _bound_params(h: FunctionInfo, call: ast.Call, carries) -> set[str]:
+    """Parameters of helper ``h`` that receive a text-carrying argument at ``call``."""
+    try:
+        m = _callee_param_index(h, call)
+    except Unsupported:
+        return set()
+    names = _pos_params(h)
+    out = set()
+    for k_, a in m.items():
+        if carries(a):
+            out.add(names[k_] if isinstance(k_, int) and k_ < len(names) else (k_ if isinstance(k_, str) else ""))
+    out.discard("")
+    return out
+
+
+def _conserved_to_sink(rep: Report, fi: FunctionInfo, seeds: set[str], finder, label: str, sink_label: str, depth: int = 0) -> set[str] | None:
+    """``_text_conserved`` towards the sink that ``finder`` locates in ``fi`` - or, when the function hands the text on
+    with ``return helper(...)``, in that helper (two levels).  Returns the parameters of ``fi`` the sink depends on
+    (None when no sink was found)."""
+    all_sinks: list[ast.AST] = []
+    sinks = finder(fi)
+    if sinks:
+        _text_conserved(rep, fi, seeds, sinks, label, sink_label, depth=depth)
+        all_sinks += sinks
+    if depth < 3:
+        carriers = _forward(fi, seeds)
+        carries = lambda e: bool(_names_in(e) & carriers)
+        for r in [n for n in fi.local_nodes() if isinstance(n, ast.Return) and isinstance(n.value, ast.Call)]:
+            h = _package_callee(r.value, fi)
+            if h is None or h.is_lambda or h.fq == fi.fq:
+                continue
+            seeds_h = _bound_params(h, r.value, carries)
+            if not seeds_h:
+                continue
+            needed_h = _conserved_to_sink(rep, h, seeds_h, finder, label, sink_label, depth + 1)
+            if needed_h is None:
+                # the helper could not be followed to a sink: its whole result is what flows on
+                _text_conserved(rep, fi, seeds, [r.value], label, f"{h.name}()", depth=depth)
+                all_sinks.append(r.value)
+                continue
+            try:
+                m = _callee_param_index(h, r.value)
+            except Unsupported:
+                continue
+            names = _pos_params(h)
+            args = [a for k_, a in m.items() if (names[k_] if isinstance(k_, int) and k_ < len(names) else k_) in needed_h and carries(a)]
+            if args:
+                _text_conserved(rep, fi, seeds, args, label, f"{h.name}()", depth=depth)
+                all_sinks += args
+    if not all_sinks:
+        return None
+    return _backward(fi, all_sinks) & set(fi.params)
+
+
+def _text_conserved(rep: Report, fi: FunctionInfo, seeds: set[str], sinks: list[ast.AST], label: str, sink_label: str, source_pred=None, depth: int = 0) -> None:
+    """No character-changing operation lies on a data-flow path from the inserted text to the nested parse.
+    Package helpers whose result flows on towards the sink are followed (parameters bound to the carrying arguments,
+    their return values - element-wise for tuples - as the sink)."""
     k = f"{fi.fq}|{label} reaches {sink_label} unmodified"
     if not sinks:
         raise Unsupported(f"{fi.qualname}: {sink_label} not found")
@@ -1936,6 +2025,61 @@ def _text_conserved(rep: Report, fi: FunctionInfo, seeds: set[str], sinks: list[
         kind, names = _destination(n, sinks)
         if kind == "sink" or (kind == "names" and names & need) or (kind == "return" and any(isinstance(parent(s), ast.Return) or any(isinstance(x, ast.Return) for x in ancestors(s)) for s in sinks)):
             bad.append(n)
+    # helpers the text passes through on its way to the sink
+    if depth < 2:
+        for n in nodes_:
+            if not isinstance(n, ast.Call) or (dotted(n.func) or "").split(".")[-1] in NORMALISING_FUNCS:
+                continue
+            h = _package_callee(n, fi)
+            if h is None or h.is_lambda or h.fq == fi.fq:
+                continue
+            seeds_h = _bound_params(h, n, carries)
+            if not seeds_h:
+                continue
+            kind, names = _destination(n, sinks)
+            if not (kind == "sink" or (kind == "names" and names & need)):
+                continue
+            idxs = None
+            st = _stmt_of(n)
+            if isinstance(st, ast.Assign) and st.value is n and len(st.targets) == 1 and isinstance(st.targets[0], ast.Tuple):
+                elts = st.targets[0].elts
+                idxs = (len(elts), [i for i, t in enumerate(elts) if isinstance(t, ast.Name) and t.id in need])
+            # a result bound to one name of which only some attributes flow on: only those record fields matter
+            attrs = None
+            if isinstance(st, ast.Assign) and st.value is n and len(st.targets) == 1 and isinstance(st.targets[0], ast.Name):
+                rv = st.targets[0].id
+                attrs = set()
+                exprs = list(sinks) + [val for names_, val in _bindings(fi) if names_ & need]
+                for e in exprs:
+                    for x in ast.walk(e):
+                        if isinstance(x, ast.Name) and x.id == rv:
+                            px = parent(x)
+                            if isinstance(px, ast.Attribute) and px.value is x:
+                                attrs.add(px.attr)
+                            else:
+                                attrs = None
+                                break
+                    if attrs is None:
+                        break
+
+            def returned(f: FunctionInfo, idxs=idxs, attrs=attrs) -> list[ast.AST]:
+                """The parts of ``f``'s return values that flow on (``return helper(...)`` is followed by the caller)."""
+                out_: list[ast.AST] = []
+                for r in f.local_nodes():
+                    if not (isinstance(r, ast.Return) and r.value is not None):
+                        continue
+                    rec = _record_fields(r.value, f) if isinstance(r.value, ast.Call) else None
+                    if idxs is not None and isinstance(r.value, ast.Tuple) and len(r.value.elts) == idxs[0]:
+                        out_ += [r.value.elts[i] for i in idxs[1]]
+                    elif attrs and rec is not None and attrs <= set(rec[0]):
+                        out_ += [rec[1][a] for a in sorted(attrs)]
+                    elif isinstance(r.value, ast.Call) and rec is None and _package_callee(r.value, f) is not None and _package_callee(r.value, f).fq != f.fq:
+                        continue  # delegation
+                    else:
+                        out_.append(r.value)
+                return out_
+
+            _conserved_to_sink(rep, h, seeds_h, returned, label, f"{sink_label} (through {h.name}())", depth + 1)
     if not bad:
         rep.ok("C06.R6", k, fi.module.site(sinks[0]), f"via {sorted(need & carriers)[:6]}")
     for n in bad:
@@ -1978,13 +2122,15 @@ def r6_text_conserved(corpus: Corpus, rep: Report, tier: str):
     pdo = corpus.func("parsers.directives:_parse_directive_options")
     oc = corpus.cls("parsers.directives:_DirectiveOptions")
     of = _dataclass_fields(oc)
-    _text_conserved(rep, pdo, {_pos_params(pdo)[0]}, ctor_field_args(pdo, oc.fq, 0, of[0]), "the directive's content", "the body left after the option block")
+    if None is _conserved_to_sink(rep, pdo, {_pos_params(pdo)[0]}, lambda f: ctor_field_args(f, oc.fq, 0, of[0]), "the directive's content", "the body left after the option block"):
+        raise Unsupported("_parse_directive_options: the body left after the option block not found (also not in helpers it returns through)")
     # 2. body lines
     pdt = corpus.func("parsers.directives:parse_directive_text")
     res = corpus.cls("parsers.directives:DirectiveParsingResult")
     rf = _dataclass_fields(res)
     pp = _pos_params(pdt)
-    _text_conserved(rep, pdt, {pp[1], pp[2]}, ctor_field_args(pdt, res.fq, 2, rf[2]), "the directive's first line/content", "the body lines of the parsing result")
+    if None is _conserved_to_sink(rep, pdt, {pp[1], pp[2]}, lambda f: ctor_field_args(f, res.fq, 2, rf[2]), "the directive's first line/content", "the body lines of the parsing result"):
+        raise Unsupported("parse_directive_text: the body lines of the parsing result not found (also not in helpers it returns through)")
     # 3./4. the mocks
     np_ = corpus.func("mocking:MockState.nested_parse")
     _text_conserved(rep, np_, {_pos_params(np_)[0]}, nrt_text_args(np_), "the block handed to nested_parse", "the nested parse")
